@@ -34,7 +34,17 @@ ENTRY = {'lean_files': ['Tables/C19.lean', 'Props/C19.lean', 'Props/C19More.lean
          '(normwise backward error of the eigenvalue solver on the companion matrix); every returned root must have exact '
          'residual |p(rho)| <= eps W T(rho); n - e roots must be exactly 1; count = degree - sigma-roots dropped at -1. '
          'unit: roots_in_unit_interval filter equals the model on the same polyroots output; planted simple roots clearly '
-         'inside are returned, clearly outside are not. non-trivial = non-constant input; distinct by hash of exact inputs',
+         'inside are returned, clearly outside are not. scale: the polynomials of unit (roots_in_unit_interval, degree 1..9) and of '
+         'roots (bezier_roots, degree 1..12) with every coefficient multiplied by an exact power of two 2^k - k places the largest / '
+         'smallest / leading coefficient within a factor 8 of one of the absolute constants of the module (2^-13 ... 2^-52, read '
+         'from the live module), or |k| in {8 ... 300} - and the SAME oracles (c p has the roots of p; failure keys end in '
+         ':scaled-coefficients). locate (both configurations): locate_point on lattice nets of degree 1..3 (also elevated once or '
+         'twice, collinear) times 2^k, one k for the net or one per coordinate, at the exact binary64 point B(s0), s0 = j/32: a '
+         'parameter s with |B(s) - P| <= 2^-30 size per coordinate must be returned - demanded when s0 is a simple root of every '
+         'non-constant coordinate polynomial and slope of the other L2-normalised coordinate polynomial x root allowance of unit '
+         '(4 C_ROOT (n+1) u max|a| sum s0^i / |p\'(s0)|) + evaluation error <= half of _ZERO_THRESHOLD; below 16 x _L2_THRESHOLD '
+         '(where the routine cannot examine the second coordinate) only when s0 is the single root near [0,1] of each coordinate '
+         'polynomial. non-trivial = non-constant input; distinct by hash of exact inputs',
  'partial': ['implicit function = c x the Sylvester resultant (Mathlib Polynomial.resultant) of X(s)-x and Y(s)-y for degree 1, 2, 3, every net, '
              'any field, with c = -1, 1, 1 (C19.implicit_is_resultant); zero set: evaluate = 0 <-> common root in every algebraically '
              'closed extension, provided the s^d coefficient of X or Y is non-zero; identically zero <-> the net is degree elevated '
